@@ -8,7 +8,7 @@ def run(res, tier):
         "direction convention pinned to the code: a positive offset k makes out[x] = in[x+k] (cross-checked against applyTo by C15)",
         "polynomial part: interior = destination cells whose interpolation stencil lies inside the grid; offsets k+f, k in -2..2, f on a dyadic lattice plus extreme fractions",
         "OpenCL paths compiled out"]
-    c1 = _api.run(res, tier, ["W_weights"], extra=["--prop", "C02"])
+    c1 = _api.run(res, tier, ["W_weights"], extra=["--prop", "C02"], blocks=(1,))
     c2 = _api.run(res, tier, ["C02_shift"])
     return lambda v: (c1(v) if (v.get("replay") or {}).get("harness") == "W_weights" else c2(v))
 
